@@ -3,7 +3,8 @@ import TexcraftModel.Model.C18
 
 /-! Driver for C18 (Box language). Sections of a request are separated by ` | `.
 
-* `rt <H|V> <style> | <nodes> | <code points of the real printed text, or ->`
+* `rt <H|V> <style> | <nodes> | <code points of the real printed text, or -> | <code points
+    that Rust's escape_debug prints raw, among those occurring in the list's strings>`
     style 1 = list printer (`Vec<_>::to_box_lang`, runs of characters merged),
     style 0 = one `Display` per element (boxworks-testing).
     → `expr=<0/1> lex=<ok/err/uns> tok=<0/1> spec=<0/1> model=<0/1>`
@@ -12,11 +13,19 @@ import TexcraftModel.Model.C18
       tok   : tokens of the real text = `printCalls (lower l)`            (I vs M)
       spec  : `parseToks` of the real text's tokens = the original list    (S on real output)
       model : `parseToks (printNodes l)` = the original list               (M vs S)
+      txt   : the real text = the model's `renderCalls raw 0 (lower l)` character by character
+              (I vs M; on a mismatch the model's text follows after ` | `)
+      mlex  : `lex` of the model's text = the model's tokens (sanity of `lexer_inverts_printer`)
       repr  : `reprList` (token-level representable); nspec: `parseToks` of the real text's
               tokens = `normList l` (what printing forgets, S on real output)
-* `src | <code points of a source> | <code points of the real format(source), or ->`
+* `src <E|O|P> | <code points of a source> | <code points of the real format(source), or -> |
+    <raw code points>`   (E: the real format returned errors, O: it returned text, P: it panicked)
     → `H=<ok nodes|err|uns> | V=<…> | fmt=<1/0/na>`
       fmt: tokens of the real formatted text = `formatToks (lex source)`   (I vs M)
+      ftxt: on a source without comments, the real formatted text = `formatText raw source`
+           character by character, and the real formatter errs iff the model does  (I vs M)
+      L  : the model lexer's token stream of the source (`ok <tokens>`), or `err <class>` =
+           the first error the real lexer records                          (I vs M)
 
 Nodes are integer-encoded (see `encNode`); a list is its length followed by its nodes. In
 requests an hbox carries the *printed text* of its glue ratio (length + code points), in
@@ -132,34 +141,71 @@ def mode? : String → Option Mode
 
 def sameNodes (a b : List Node) : Bool := encList a == encList b
 
+def errName : LexErr → String
+  | .invalidCharacter => "InvalidCharacter"
+  | .unknownEscapeSequence => "UnknownEscapeSequence"
+  | .numberOutOfRange => "NumberOutOfRange"
+  | .multipleDecimalPoints => "MultipleDecimalPoints"
+  | .numberWithoutUnits => "NumberWithoutUnits"
+  | .invalidDimensionUnit => "InvalidDimensionUnit"
+  | .unterminatedString => "UnterminatedString"
+  | .parse => "Parse"
+
 def showRes (r : Res (List Node)) : String :=
   match r with
   | .ok l => "ok " ++ showInts (encList l)
-  | .err => "err"
+  | .err _ => "err"
   | .unsupported => "uns"
 
-def handleRt (m : Mode) (style : Nat) (l : List Node) (txt : Option (List Char)) : String :=
+def encStr (s : List Char) : List Int := (s.length : Int) :: s.map (fun c => (c.toNat : Int))
+
+def encInf : InfOrder → Int | .fil => 1 | .fill => 2 | .filll => 3
+
+def encTok : BTok → List Int
+  | .kw s => 0 :: encStr s
+  | .lparen => [1] | .rparen => [2] | .lbrack => [3] | .rbrack => [4] | .comma => [5] | .eq => [6]
+  | .str s => 7 :: encStr s
+  | .int n => [8, n]
+  | .dim s => [9, s]
+  | .inf s o => [10, s, encInf o]
+
+/-- The token stream of a text, or the first lexer error class. -/
+def showLex (r : Res (List BTok)) : String :=
+  match r with
+  | .ok toks => "ok " ++ showInts ((toks.map encTok).flatten)
+  | .err e => "err " ++ errName e
+  | .unsupported => "uns"
+
+def handleRt (m : Mode) (style : Nat) (l : List Node) (txt : Option (List Char)) (rawCps : List Int) : String :=
   let cs := if style = 0 then lowerEach l else lower m l
   let mtoks := printCalls cs
   let expr := exprList m l
+  let repr := reprList m l
+  let raw : Char → Bool := fun c => rawCps.contains (c.toNat : Int)
+  let mtext := renderCalls raw 0 cs
   let model := match parseToks m mtoks with
     | some l' => sameNodes l' l
     | none => false
-  let repr := reprList m l
-  let (lexs, tok, spec, nspec) :=
+  -- the model's own text level: lexing the model's text gives the model's tokens
+  let mlex := match lex mtext with
+    | .ok t => decide (t = mtoks)
+    | _ => false
+  let (lexs, tok, spec, nspec, sameText) :=
     match txt with
-    | none => ("na", false, false, false)
+    | none => ("na", false, false, false, false)
     | some t =>
+      let same := decide (t = mtext)
       match lex t with
       | .ok toks =>
         match parseToks m toks with
-        | some l' => ("ok", decide (toks = mtoks), sameNodes l' l, sameNodes l' (normList l))
-        | none => ("ok", decide (toks = mtoks), false, false)
-      | .err => ("err", false, false, false)
-      | .unsupported => ("uns", false, false, false)
-  s!"expr={b2i expr} lex={lexs} tok={b2i tok} spec={b2i spec} model={b2i model} repr={b2i repr} nspec={b2i nspec}"
+        | some l' => ("ok", decide (toks = mtoks), sameNodes l' l, sameNodes l' (normList l), same)
+        | none => ("ok", decide (toks = mtoks), false, false, same)
+      | .err _ => ("err", false, false, false, same)
+      | .unsupported => ("uns", false, false, false, same)
+  s!"expr={b2i expr} lex={lexs} tok={b2i tok} spec={b2i spec} model={b2i model} repr={b2i repr} nspec={b2i nspec} txt={b2i sameText} mlex={b2i mlex}"
+    ++ (if sameText || txt.isNone then "" else " | " ++ showInts (mtext.map (fun c => (c.toNat : Int))))
 
-def handleSrc (src : List Char) (fmt : Option (List Char)) : String :=
+def handleSrc (src : List Char) (fmt : Option (List Char)) (rawCps : List Int) (fmtErr : Bool) : String :=
   let h := showRes (parseText .H src)
   let v := showRes (parseText .V src)
   let f :=
@@ -174,22 +220,33 @@ def handleSrc (src : List Char) (fmt : Option (List Char)) : String :=
         else "0"
       | _, _ => "na"
     | _, _ => "na"
-  s!"H={h} | V={v} | fmt={f}"
+  -- exact text of the formatter on comment-free text: real format(s) = formatText raw s
+  let raw : Char → Bool := fun c => rawCps.contains (c.toNat : Int)
+  let ftxt :=
+    if src.contains '#' then "na"
+    else
+      match formatText raw src, fmt with
+      | .ok t, some ft => if t = ft then "1" else "0"
+      | .ok _, none => if fmtErr then "0" else "na"      -- model formats, the real one reports errors
+      | .err _, some _ => "0"                           -- model says error, the real one formats
+      | .err _, none => "1"
+      | .unsupported, _ => "0"
+  s!"H={h} | V={v} | fmt={f} | L={showLex (lex src)} | ftxt={ftxt}"
 
 def handle (line : String) : String :=
   match sections line with
-  | ["rt", m, style] :: nodes :: txt :: [] =>
-    match mode? m, style.toNat?, ints? nodes, text? txt with
-    | some m, some style, some ns, some txt =>
+  | ["rt", m, style] :: nodes :: txt :: rawSec :: [] =>
+    match mode? m, style.toNat?, ints? nodes, text? txt, ints? rawSec with
+    | some m, some style, some ns, some txt, some rawCps =>
       match decList (ns.length + 2) ns with
-      | some (l, []) => handleRt m style l txt
+      | some (l, []) => handleRt m style l txt rawCps
       | _ => "bad-request nodes"
-    | _, _, _, _ => "bad-request"
-  | ["src"] :: src :: fmt :: [] =>
-    match text? src, text? fmt with
-    | some (some s), some f => handleSrc s f
-    | some none, some f => handleSrc [] f
-    | _, _ => "bad-request"
+    | _, _, _, _, _ => "bad-request"
+  | ["src", fe] :: src :: fmt :: rawSec :: [] =>
+    match text? src, text? fmt, ints? rawSec with
+    | some (some s), some f, some rawCps => handleSrc s f rawCps (fe == "E")
+    | some none, some f, some rawCps => handleSrc [] f rawCps (fe == "E")
+    | _, _, _ => "bad-request"
   | _ => "bad-request"
 
 end DrvC18
